@@ -11,6 +11,7 @@ was polled), or idle (same, and nothing at all is outstanding).
 import SeliumModel.Lemmas.PubSubHealthy
 import SeliumModel.Lemmas.PubSubSettle
 import SeliumModel.Lemmas.ReqRepMore
+import SeliumModel.Lemmas.ReqRepQuiet
 
 namespace Selium.Route
 open Selium.Sink
@@ -121,6 +122,15 @@ theorem c09_reqrep_channel_drained (fuel : Nat) (s : RR)
     (rrPoll fuel s).2.queue = [] ∧ (rrPoll fuel s).2.handleReg = true := rrPoll_drained fuel s h
 
 /-! Non-vacuity: the two one-sided states in which the unrepaired loop never returned. -/
+/-- "Never sleeps on undone work", request/reply half: when a poll ends `waiting` (every connected side has
+    reported Pending, or is absent) no reply is held back, and a successful flush covers everything every
+    requestor's sink and the bound replier's sink were handed — with a replier and no requestor, requestors and no
+    replier, both, or neither, and for every script of every peer. -/
+theorem c09_reqrep_no_unflushed_work (fuel : Nat) (s : RR) (h : (rrPoll fuel s).1 = .waiting) :
+    (∀ k ∈ (rrPoll fuel s).2.sinks, k.flushed = k.got.length) ∧ (rrPoll fuel s).2.bufRep = none ∧
+    ∀ r, (rrPoll fuel s).2.server = some r → r.sink.flushed = r.sink.got.length :=
+  (rrPoll_quiet fuel s).1 h
+
 example : (rrPoll 20 ({ queue := [.client { id := 0 } [.pending]] } : RR)).1 = .waiting := by decide +kernel
 example : (rrPoll 20 ({ queue := [.server { id := 0 } [.pending]] } : RR)).1 = .waiting := by decide +kernel
 
@@ -136,3 +146,4 @@ end Selium.Route
 #print axioms Selium.Route.c09_reqrep_terminates
 #print axioms Selium.Route.c09_reqrep_iteration_progress
 #print axioms Selium.Route.c09_reqrep_channel_drained
+#print axioms Selium.Route.c09_reqrep_no_unflushed_work
